@@ -156,6 +156,7 @@ fn hooks_and_classifiers(mut c: Cuc, plan: &Plan) -> Cuc {
 /// Executes `plan` through the `Cucumber` pipeline and returns everything observed.
 pub fn run_world_p(plan: &Rc<Plan>) -> Result<History, String> {
     let core = SimCore::new(plan.sched.clone());
+    core.quiesce_polls.set(crate::check::quiesce_polls_for(plan));
     core::install_hooks(&core);
     let ctx = world::install_run(&core, plan, false);
     runa::install_counting_hook();
